@@ -16,7 +16,7 @@
 From Coq Require Import List ZArith Lia.
 Import ListNotations.
 From V Require Import Valid.Hier Model.Graph Model.Prune Model.Src Model.SrcProof Model.SrcIdx Model.SrcPrune.
-From V Require Model.SrcE Model.SrcERefute.
+From V Require Model.SrcE Model.SrcERefute Model.SrcEProof Model.SrcEIdx.
 
 Theorem C08_prune_unreachable :
   forall g entry g', prune_unreachable g entry = Some g' ->
@@ -121,3 +121,25 @@ Theorem C08_nested_boolop_refuted :
                 s1 <> s2.
 Proof. exact SrcERefute.nested_boolop_refuted. Qed.
 Print Assumptions C08_nested_boolop_refuted.
+
+(* ---------- and where it is true: every program whose and/or sit where the transformer keeps the
+   order of evaluation (SrcEProof.good_stmts: flat chains of any length; an and/or as an operand only
+   if everything before it in the same comparison / operation / call is itself an and/or and the last
+   operand of a two-operand and/or is free of and/or) ---------- *)
+Theorem C08_graph_means_source_with_and_or :
+  forall (state : Type) (aval : Z -> state -> option (Z * state))
+         (opf : Z -> list Z -> state -> option (Z * state))
+         (act : Z -> option Z -> state -> option state)
+         (foract : Z -> Z -> Z -> option Z -> state -> option state)
+         (fortest : Z -> state -> option (bool * state))
+         (body : SrcE.stmts) (fuel : nat) (s : state) (o : SrcE.outcome state),
+    SrcEProof.good_stmts body = true ->
+    SrcE.exec state aval opf act foract fortest fuel body s = o ->
+    (exists a s', o = SrcE.ORet a s') \/ o = SrcE.ORaise ->
+    exists fuel', SrcE.run state aval opf act foract fortest (SrcE.build body) fuel' 0 [] s = o.
+Proof.
+  intros state aval opf act foract fortest body fuel s o Hg He Ho.
+  exact (SrcEProof.front_end_correct_e state aval opf act foract fortest body fuel s o Hg
+           (SrcEIdx.build_indices_distinct body) He Ho).
+Qed.
+Print Assumptions C08_graph_means_source_with_and_or.
